@@ -12,6 +12,7 @@ CONSTANTS
   FirstCap = ${FirstCap}
   Two = ${Two}
   FlushLeftover = ${FlushLeftover}
+  RelayInit = ${RelayInit}
   AddrLens <- MCAddrLens
   Pads <- MCPads
   PSizes <- MCPSizes
